@@ -19,7 +19,7 @@ ASSUMPTIONS = [
     "SymNCO is run with its default beta = 1 (which of the two symmetric terms beta multiplies is then immaterial)",
     "PPO reference: clipped surrogate + vf_lambda * Huber(delta=1) - entropy_lambda * mean entropy, as documented in the class",
 ]
-REQUIRED_COUNTERS = ["c16_fits", "c16_steps_checked", "c16_gradients_compared", "c16_rollout_weights_compared", "c16_dot_grad_checked", "c16_nonzero_gradients", "c16_rollout_steps", "c16_warmup_alpha0_steps", "c16_shared_groups_checked", "c16_ppo_minibatches", "c16_warmup_critic_steps", "c16_steps_after_warmup_end"]
+REQUIRED_COUNTERS = ["c16_fits", "c16_steps_checked", "c16_gradients_compared", "c16_rollout_weights_compared", "c16_dot_grad_checked", "c16_nonzero_gradients", "c16_rollout_steps", "c16_warmup_alpha0_steps", "c16_shared_groups_checked", "c16_ppo_minibatches", "c16_warmup_critic_steps", "c16_steps_after_warmup_end", "c16_rollout_values_checked"]
 MIN_NONTRIVIAL = {"quick": 250, "thorough": 3000}
 WORKERS = {"quick": 14, "thorough": 16}
 BUDGET_S = {"quick": 600, "thorough": 3000}
